@@ -39,6 +39,9 @@ func c20RunRaw(cs c20Case) (fs []F) {
 		}
 		return
 	}
+	if cs.Op == "alias" {
+		return c20Alias(cs)
+	}
 	t := typeByName(cs.T)
 	t2 := t
 	if cs.T2 != "" {
@@ -253,6 +256,56 @@ func c20RunRaw(cs c20Case) (fs []F) {
 	return
 }
 
+// c20Alias: the zero-length buffer is a window of the other operand's storage: parent of K frames
+// (non-empty, recognisable contents), window = parent.Slice(N, N), or one level deeper
+// parent.Slice(1, K).Slice(N-1, N-1) when L == 1.  Conversions of the same element type in both
+// directions, reads and writes: count 0, no panic, nothing transferred.
+func c20Alias(cs c20Case) (fs []F) {
+	t := typeByName(cs.T)
+	fail := func(kind, format string, a ...any) {
+		fs = append(fs, core.Failf("inert/alias/"+kind, "%+v: %s", cs, fmt.Sprintf(format, a...)))
+	}
+	parent := dyn.Alloc(t, al(cs.C, cs.K, cs.K))
+	fill(parent, 1)
+	var w dyn.Buf
+	if cs.L == 1 && cs.N >= 1 {
+		w = parent.Slice(1, cs.K).Slice(cs.N-1, cs.N-1)
+	} else {
+		w = parent.Slice(cs.N, cs.N)
+	}
+	before := takeSnap20(parent)
+	hw := hdr(w)
+	try := func(what string, f func() int) {
+		ret := -1
+		if p, msg := dyn.Try(func() { ret = f() }); p {
+			fail("panic", "%s panicked: %s", what, msg)
+		} else if ret != 0 {
+			fail("count", "%s returned %d, want 0", what, ret)
+		}
+		if d := before.diff(parent); d != "" {
+			fail("transfer", "%s changed the parent: %s", what, d)
+		}
+		if h := hdr(w); h != hw {
+			fail("shape", "%s changed the window's shape from %+v to %+v", what, hw, h)
+		}
+	}
+	try("conversion parent -> its zero-length window", func() int { return dyn.Conv(parent, w) })
+	try("conversion zero-length window -> its parent", func() int { return dyn.Conv(w, parent) })
+	try("conversion of the zero-length window into itself", func() int { return dyn.Conv(w, w) })
+	sl := dyn.NewSl(t, 3)
+	for i := 0; i < 3; i++ {
+		sl.Set(i, dyn.Tok(t, 55))
+	}
+	try("Read from the zero-length window", func() int { return dyn.Read(w, sl) })
+	for i := 0; i < 3; i++ {
+		if sl.Get(i).Tok() != 55 {
+			fail("transfer", "Read changed the caller's slice")
+		}
+	}
+	try("Write into the zero-length window", func() int { return dyn.Write(sl, w) })
+	return
+}
+
 type snap20 struct {
 	h header
 	v []dyn.Val
@@ -355,6 +408,16 @@ func init() {
 							add("read", func(cs *c20Case) { cs.T2, cs.N = tn(t2), n })
 							add("wstriped", func(cs *c20Case) { cs.T2, cs.N = tn(t2), n })
 							add("rstriped", func(cs *c20Case) { cs.T2, cs.N = tn(t2), n })
+						}
+					}
+				}
+			}
+			// zero-length windows of the other operand's own storage (start, middle, end, nested)
+			for t := 0; t < dyn.NB; t++ {
+				for C := 1; C <= 3; C++ {
+					for _, K := range []int{3, 40} {
+						for _, N := range []int{0, 1, K / 2, K} {
+							cases = append(cases, c20Case{Op: "alias", T: tn(t), C: C, K: K, N: N}, c20Case{Op: "alias", T: tn(t), C: C, K: K, N: N, L: 1})
 						}
 					}
 				}
